@@ -41,8 +41,8 @@ FLOOR = -2816  # lg(2^-44)
 
 def _sp(F):
     u = lib().utils
-    return u.SparseQuaternionMatrix(sparse.csr_matrix(F[..., 0]), sparse.csr_matrix(F[..., 1]),
-                                    sparse.csr_matrix(F[..., 2]), sparse.csr_matrix(F[..., 3]), F.shape[:2])
+    from ..qlib import sp_quat
+    return sp_quat(F)
 
 
 def grade(A, b):
